@@ -1,0 +1,16 @@
+//go:build verif
+
+package fastcgi
+
+import "io"
+
+// Thin exported wrappers for the C13 verification harness (add-only; compiled only with -tags verif).
+
+// VerifNewClient returns a client exactly as DialWithDialerContext builds it, but over the given
+// connection instead of a dialed one (lets the harness script the bytes and the read segmentation).
+func VerifNewClient(rwc io.ReadWriteCloser) *FCGIClient {
+	return &FCGIClient{rwc: rwc, keepAlive: false, reqID: 1}
+}
+
+// VerifStderr returns what the client has diverted from the responder's stderr stream so far.
+func VerifStderr(c *FCGIClient) []byte { return append([]byte(nil), c.stderr.Bytes()...) }
